@@ -33,6 +33,28 @@ fn idents_of(ts: impl ToTokens) -> BTreeSet<String> {
     out
 }
 
+/// the `let`s of `scope` (oldest first) an expression with the identifiers `needed` depends on: the
+/// nearest binding of each name, transitively; a name that is a declared free variable is an input
+fn needed_lets(scope: &[syn::Local], mut needed: BTreeSet<String>, declared: &BTreeSet<String>) -> Vec<syn::Local> {
+    let mut used: Vec<syn::Local> = Vec::new();
+    for l in scope.iter().rev() {
+        let mut ids = Vec::new();
+        pat_idents(&l.pat, &mut ids);
+        if !ids.iter().any(|i| needed.contains(i) && !declared.contains(i)) {
+            continue;
+        }
+        for i in &ids {
+            needed.remove(i);
+        }
+        if let Some(init) = &l.init {
+            needed.extend(idents_of(&init.expr));
+        }
+        used.push(l.clone());
+    }
+    used.reverse();
+    used
+}
+
 fn pat_idents(p: &Pat, out: &mut Vec<String>) {
     match p {
         Pat::Ident(i) => out.push(i.ident.to_string()),
@@ -286,25 +308,7 @@ impl<'u> Tr<'u> {
         self.declare_params(rq, self_ty.as_deref(), &mut env, &mut binders)?;
         self.cur_file = self.u.files[file].clone();
         let declared: BTreeSet<String> = rq.params.iter().map(|(t, _)| t.replace(' ', "")).collect();
-        // the `let`s the expression depends on (nearest binding of each name), oldest first
-        let mut needed = idents_of(&expr);
-        let mut used: Vec<syn::Local> = Vec::new();
-        for l in scope.iter().rev() {
-            let mut ids = Vec::new();
-            pat_idents(&l.pat, &mut ids);
-            let hit: Vec<&String> = ids.iter().filter(|i| needed.contains(*i) && !declared.contains(*i)).collect();
-            if hit.is_empty() {
-                continue;
-            }
-            for i in &ids {
-                needed.remove(i);
-            }
-            if let Some(init) = &l.init {
-                needed.extend(idents_of(&init.expr));
-            }
-            used.push(l.clone());
-        }
-        used.reverse();
+        let used = needed_lets(&scope, idents_of(&expr), &declared);
         let mut stmts: Vec<Stmt> = used.into_iter().map(Stmt::Local).collect();
         stmts.push(Stmt::Expr(expr.clone(), None));
         let hint = match &rq.ty {
@@ -535,6 +539,75 @@ impl<'u> Tr<'u> {
         let mut binders = Vec::new();
         self.declare_params(rq, self_ty.as_deref(), &mut env, &mut binders)?;
         self.cur_file = self.u.files[file].clone();
+        // the `let`s of the loop body the conditions depend on
+        let declared: BTreeSet<String> = rq.params.iter().map(|(t, _)| t.replace(' ', "")).collect();
+        let scope: Vec<syn::Local> = lp.body.stmts[..lp.body.stmts.len() - 1]
+            .iter()
+            .filter_map(|s| if let Stmt::Local(l) = s { Some(l.clone()) } else { None })
+            .collect();
+        let cond_idents = match &last {
+            Expr::If(_) => {
+                // conditions only: the branches are not translated
+                fn conds(e: &Expr, out: &mut BTreeSet<String>) {
+                    if let Expr::If(i) = e {
+                        out.extend(idents_of(&i.cond));
+                        if let Some((_, b)) = &i.else_branch {
+                            conds(b, out);
+                        }
+                    }
+                }
+                let mut o = BTreeSet::new();
+                conds(&last, &mut o);
+                o
+            }
+            Expr::Match(m) => {
+                let mut o = idents_of(&m.expr);
+                for a in &m.arms {
+                    if let Some((_, g)) = &a.guard {
+                        o.extend(idents_of(g));
+                    }
+                }
+                o
+            }
+            _ => BTreeSet::new(),
+        };
+        let mut lets: Vec<(String, G)> = Vec::new();
+        for l in needed_lets(&scope, cond_idents, &declared) {
+            let (pat, annot) = match &l.pat {
+                Pat::Type(pt) => (&*pt.pat, Some(&*pt.ty)),
+                p => (p, None),
+            };
+            let translated: R<(String, G, Env)> = (|| {
+                let init = match &l.init {
+                    Some(i) if i.diverge.is_none() => &*i.expr,
+                    _ => return self.err(l.span(), "`let` without a plain value"),
+                };
+                let hint = match annot {
+                    Some(t) => Some(self.ty(t, self_ty.as_deref())?),
+                    None => None,
+                };
+                let (g, t) = self.expr(init, &env, hint.as_ref())?;
+                let t = hint.unwrap_or(t);
+                let mut env2 = env.clone();
+                let b = match pat {
+                    Pat::Ident(_) | Pat::Wild(_) => self.pattern(pat, &t, &mut env2)?,
+                    Pat::Tuple(_) => format!("'{}", self.pattern(pat, &t, &mut env2)?),
+                    _ => return self.err(l.span(), "unsupported pattern in `let`"),
+                };
+                Ok((b, g, env2))
+            })();
+            self.cur_file = self.u.files[file].clone();
+            match translated {
+                Ok((b, g, env2)) => {
+                    env = env2;
+                    lets.push((b, g));
+                }
+                Err(e) => {
+                    let why = format!("{} (line {})", e.msg, e.line);
+                    self.poison_pattern(pat, &mut env, &why, l.span())?;
+                }
+            }
+        }
         let ev = events_enum.clone();
         let (g, _) = match &last {
             Expr::If(i) => self.build_if(i, &env, &mut |tr, stmts, _| tr.branch_outcome(stmts, &ev))?,
@@ -544,6 +617,10 @@ impl<'u> Tr<'u> {
             })?,
             _ => unreachable!(),
         };
+        let mut g = g;
+        for (b, e) in lets.into_iter().rev() {
+            g = G::Let(b, Box::new(e), Box::new(g));
+        }
         let text = format!("Definition {name} {} : (LoopExit * list string) :=\n  {}.", binders.join(" "), g.render(2));
         let origin = format!(
             "{}:{} final `if`/`match` of the loop body of fn {} {}",
